@@ -64,6 +64,16 @@ def cases(tier, inst):
             for place in ("before", "after"):
                 for dom in doms[:12]:
                     yield (uform, t, place, dom, True)
+    # two free variables of which only one may be selected: the universal is decided per binding of BOTH
+    doms2 = [d for d in udomains(2, vals[:4])]
+    for t in trees_by_depth(leaves2(), 1):
+        if not ({"x", "y"} & Q.cond_vars(t)):
+            continue
+        for place in ("alone", "before", "after"):
+            for sel in (("x",), ("y",), ("x", "y"), ("y", "x")):
+                for dom in (doms2 if thorough else doms2[:4] + doms2[8:12]):
+                    for caching in ((True, False) if place != "after" else (True,)):
+                        yield ("free2", t, place, sel, dom, caching)
     rep = [leaves("var")[i] for i in (0, 1, 4, 6)]
     sel_doms = [doms[i] for i in (0, 3, 5, 9, 14, len(doms) - 1)]
     for t in trees_by_depth(rep, 2):
@@ -73,7 +83,26 @@ def cases(tier, inst):
                     yield ("var", t, "alone", dom, caching)
 
 
+FREE_X2 = (("p", 1), ("q", 1)), (("p", 2), ("q", 2))
+FREE_Y2 = (("p", 1), ("q", 1)), (("p", 2), ("q", 2)), (("p", 3), ("q", 1))
+VY = ("y", "let", "Item", "G")
+Y_ = V("y")
+
+
+def leaves2():
+    """leaves over two free variables x, y and the universal u"""
+    up, uq, xp, xq, yp, yq = A(U, "p"), A(U, "q"), A(X, "p"), A(X, "q"), A(Y_, "p"), A(Y_, "q")
+    return [("cmp", "gt", xp, up), ("cmp", "ge", yp, up), ("cmp", "ne", yq, uq), ("cmp", "eq", xq, uq),
+            ("cmp", "ge", yp, xp), ("cmp", "ge", up, L(2))]
+
+
 def query_of(case):
+    if case[0] == "free2":
+        _, t, place, sel, dom, caching = case
+        fa = ("fa", U, t)
+        other = ("cmp", "ge", A(Y_, "q"), L(1))
+        conds = {"alone": (fa,), "before": (("andf", other, fa),), "after": (("andf", fa, other),)}[place]
+        return ("Q", "an", "setof", tuple(V(n) for n in sel), conds, (VX, VY))
     uform, t, place, dom, caching = case
     univ = U if uform == "var" else A(U, "q")
     fa = ("fa", univ, t)
@@ -83,17 +112,26 @@ def query_of(case):
 
 
 def wspec_of(case):
+    if case[0] == "free2":
+        return (("F", "Item", FREE_X2), ("G", "Item", FREE_Y2), ("U", "Item", case[4]))
     return (("F", "Item", FREE), ("U", "Item", case[3]))
 
 
 def run_case(case, inst):
-    uform, t, place, dom, caching = case
+    if case[0] == "free2":
+        _, t, place, sel2, dom, caching = case
+        uform = "free2"
+    else:
+        uform, t, place, dom, caching = case
+        sel2 = ("x",)
     q = query_of(case)
 
     def body():
         world = build_world(wspec_of(case), inst)
         ref = Q.Ref(world, inst, universals=(VU,))
-        exp = [(env["x"],) for env in ref.solutions(q)]
+        exp = [tuple(env[n] for n in sel2) for env in ref.solutions(q)]
+        if len(sel2) == 1 and uform == "free2":
+            exp = list({id(r[0]): r for r in exp}.values())       # projection: compared as a set
         try:
             b = Q.Builder(world, inst)
             from entity_query_language import symbolic_mode
@@ -111,13 +149,15 @@ def run_case(case, inst):
         return got1, got2, exp
 
     got1, got2, exp = run_isolated(body, caching=caching)
-    mentions = ("u" if "u" in Q.cond_vars(t) else "") + ("x" if "x" in Q.cond_vars(t) else "")
-    res = {"ok": True, "nontrivial": 0 < len(exp) < len(FREE), "transitions": 2,
+    mentions = "".join(n for n in ("u", "x", "y") if n in Q.cond_vars(t))
+    nfree = len(FREE) if uform != "free2" else (len(FREE_X2) * len(FREE_Y2) if len(sel2) == 2 else
+                                                (len(FREE_X2) if sel2 == ("x",) else len(FREE_Y2)))
+    res = {"ok": True, "nontrivial": 0 < len(exp) < nfree, "transitions": 2,
            "tags": [f"uform={uform}", f"root={root_kind(t)}", f"place={place}", f"caching={'on' if caching else 'off'}",
                     f"mentions={mentions}", f"urows={len(dom)}"],
            "outcome": str(len(exp))}
     for name, got in (("eval1", got1), ("eval2", got2)):
-        d = diff_rows(got, exp, count=True)
+        d = diff_rows(got, exp, count=(uform != "free2" or len(sel2) == 2))
         if d is not None:
             res.update(ok=False, sig=f"{name}:{d}/root={root_kind(t)}/cache={'on' if caching else 'off'}/{uform}",
                        obs=(name, row_labels(got)), exp=row_labels(exp))
@@ -126,6 +166,6 @@ def run_case(case, inst):
 
 
 def describe(case, inst):
-    return (("enable_caching()" if case[4] else "disable_caching()") + "\n" + Q.up_world(wspec_of(case), inst) + "\n"
+    return (("enable_caching()" if case[-1] else "disable_caching()") + "\n" + Q.up_world(wspec_of(case), inst) + "\n"
             + "with symbolic_mode(): u = let(Item, U)\n" + Q.up_query(query_of(case), inst)
             + "\nrows1 = list(q.evaluate()); rows2 = list(q.evaluate())   # expected: {x | all(c(x, u) for u in U)}")
